@@ -920,7 +920,7 @@ def on_cells_only(ctx, fi, flow, ravel_call, rule: str, what: str, conv: str = '
 
 # --------------------------------------------------------------------------- facts on a path
 
-def facts(ctx: Context, fi: FuncInfo, node: ast.AST, expand: bool = True) -> set[tuple[str, bool]]:
+def facts(ctx: Context, fi: FuncInfo, node: ast.AST, expand: bool = True, clauses_out: Optional[list] = None) -> set[tuple[str, bool]]:
     """The atomic conditions known to hold (True) or not to hold (False) on every path to `node`, as text:
     comparisons in their positive form, conjunctions / disjunctions taken apart, locals that stand for one
     expression spelled out.  `if a and not b:` / `if not a: return` + `if b: return` / `x if a and not b else y`
@@ -953,7 +953,16 @@ def facts(ctx: Context, fi: FuncInfo, node: ast.AST, expand: bool = True) -> set
                     add(v, pol)
             else:
                 # a conjunction known false / a disjunction known true: at least one operand is false / true
-                lits = [literal(v, pol) for v in t.values]
+                # (nested operands of the same kind are part of the same clause: `a or (b or c)`)
+                flat = []
+                todo = list(t.values)
+                while todo:
+                    v = todo.pop(0)
+                    if isinstance(v, ast.BoolOp) and type(v.op) is type(t.op):
+                        todo = list(v.values) + todo
+                    else:
+                        flat.append(v)
+                lits = [literal(v, pol) for v in flat]
                 if all(l is not None for l in lits):
                     clauses.append(lits)
             return
@@ -977,6 +986,8 @@ def facts(ctx: Context, fi: FuncInfo, node: ast.AST, expand: bool = True) -> set
                     add(it.test, True)
                 elif empty(it.body) and not empty(it.orelse):
                     add(it.test, False)
+    if clauses_out is not None:
+        clauses_out.extend([list(cl) for cl in clauses])     # the disjunctions known here: at least one literal of each holds
     # unit resolution: a clause all of whose literals but one are known to fail gives the last one
     changed = True
     while changed:
@@ -1342,6 +1353,9 @@ def item_outcome(builder, atoms: dict[str, Optional[bool]], env: Optional[dict] 
 
 # --------------------------------------------------------------------------- folding a small pure function over given inputs
 
+_MISSING = object()
+
+
 def fold_function(fi: FuncInfo, inputs: dict[str, object], max_steps: int = 200, *, only_names: Optional[set] = None, want: Optional[list] = None) -> tuple[str, object]:
     """What a small decision function does for given inputs, read off its source: ('return', value), ('raise', exception name)
     or ('fall', None).  `inputs` maps the text of an expression (`'output_path.suffix'`, a parameter name) to the Python value it
@@ -1367,10 +1381,53 @@ def fold_function(fi: FuncInfo, inputs: dict[str, object], max_steps: int = 200,
                 return env[e.id]
             raise Undecided(e.id)
         if isinstance(e, (ast.Tuple, ast.List)):
-            vals = [ev(x) for x in e.elts]
+            vals = []
+            for x in e.elts:
+                if isinstance(x, ast.Starred):
+                    inner = ev(x.value)
+                    if not isinstance(inner, (tuple, list)):
+                        raise Undecided(text[:40])
+                    vals.extend(inner)
+                else:
+                    vals.append(ev(x))
             return tuple(vals) if isinstance(e, ast.Tuple) else vals
         if isinstance(e, ast.Set):
             return frozenset(ev(x) for x in e.elts)
+        if isinstance(e, (ast.ListComp, ast.GeneratorExp, ast.SetComp)) and len(e.generators) == 1 and isinstance(e.generators[0].target, ast.Name) and not e.generators[0].is_async:
+            # a comprehension over a constant sequence: one evaluation of the element per item (the loop variable is local to it)
+            g = e.generators[0]
+            seq = ev(g.iter)
+            if not isinstance(seq, (tuple, list)):
+                raise Undecided(text[:40])
+            saved = env.get(g.target.id, _MISSING)
+            out_ = []
+            try:
+                for item in seq:
+                    env[g.target.id] = item
+                    if all(ev(t) for t in g.ifs):
+                        out_.append(ev(e.elt))
+            finally:
+                if saved is _MISSING:
+                    env.pop(g.target.id, None)
+                else:
+                    env[g.target.id] = saved
+            return frozenset(out_) if isinstance(e, ast.SetComp) else out_
+        if isinstance(e, ast.JoinedStr):
+            parts = []
+            for part in e.values:
+                if isinstance(part, ast.Constant):
+                    parts.append(str(part.value))
+                elif isinstance(part, ast.FormattedValue) and part.format_spec is None and part.conversion in (-1, 115, 114):
+                    v = ev(part.value)
+                    parts.append(repr(v) if part.conversion == 114 else str(v))
+                else:
+                    raise Undecided(text[:40])
+            return ''.join(parts)
+        if isinstance(e, ast.BinOp) and isinstance(e.op, ast.Add):
+            a, b = ev(e.left), ev(e.right)
+            if type(a) is type(b) and isinstance(a, (str, list, tuple)):
+                return a + b
+            raise Undecided(text[:40])
         if isinstance(e, ast.Dict):
             if any(k is None for k in e.keys):
                 raise Undecided(text[:40])
